@@ -144,7 +144,7 @@ class Context:
         """Record obligation  pc ⊢ goal  and try to discharge it now."""
         g = as_z3_bool(goal)
         res = prove_under(self.pc, g, solver=self.solver, ctxobj=self)
-        ob = {"name": name, "kind": kind, "status": res["status"], "info": info}
+        ob = {"name": name, "kind": kind, "status": res["status"], "info": info, "by": res.get("by", "z3")}
         if res.get("model") is not None:
             ob["model"] = res["model"]
         if res.get("reason"):
@@ -248,6 +248,60 @@ def sum_congruence_lemmas(s: z3.Solver, goal, depth=0):
     return added
 
 
+def _delta_candidates(body, var):
+    """expressions e (free of the bound variable) such that the body tests  k == e"""
+    out, seen = [], set()
+
+    def has_var(t):
+        if z3.is_var(t):
+            return z3.get_var_index(t) == var
+        return any(has_var(c) for c in t.children())
+
+    def walk(t):
+        if t.get_id() in seen or z3.is_quantifier(t):
+            return
+        seen.add(t.get_id())
+        if z3.is_eq(t) and t.arg(0).sort() == z3.IntSort():
+            a, b = t.arg(0), t.arg(1)
+            if z3.is_var(a) and z3.get_var_index(a) == var and not has_var(b):
+                out.append(b)
+            elif z3.is_var(b) and z3.get_var_index(b) == var and not has_var(a):
+                out.append(a)
+        for c in t.children():
+            walk(c)
+
+    walk(body)
+    return out[:4]
+
+
+def sum_single_support_lemmas(s: z3.Solver, goal) -> int:
+    """Sound lemmas  SumOver(n, λk. body(k)) == If(0 <= e < n, body(e), 0)  whenever  body(k) == 0 for every
+    k != e in [0, n)  is provable (sums with a Kronecker-delta factor: diagonal, identity, block and
+    permutation structure)."""
+    acc: list = []
+    _sum_terms(goal, acc, set())
+    added = 0
+    for S in acc[:12]:
+        lam = S.arg(1)
+        if not (z3.is_quantifier(lam) and lam.is_lambda()):
+            continue
+        body0 = lam.body()
+        zero = z3.RealVal(0) if S.sort() == z3.RealSort() else z3.IntVal(0)
+        for e in _delta_candidates(body0, 0):
+            k = z3.Int(f"k!ss{next(_SUM_K)}")
+            bk = z3.substitute_vars(body0, k)
+            s.push()
+            s.add(k >= 0, k < S.arg(0), k != e, bk != zero)
+            r = s.check()
+            s.pop()
+            if r == z3.unsat:
+                be = z3.substitute_vars(body0, e)
+                s.add(S == z3.If(z3.And(e >= 0, e < S.arg(0)), be, zero))
+                added += 1
+                break
+    return added
+
+
 def prove_under(pc, goal, solver=None, ctxobj=None, timeout_ms: int = 10000) -> dict:
     goal = z3.simplify(goal)
     if z3.is_true(goal):
@@ -274,8 +328,19 @@ def prove_under(pc, goal, solver=None, ctxobj=None, timeout_ms: int = 10000) -> 
                         keep.append(d)
                     else:
                         s.add(z3.Not(d))
-                g = z3.Or(*keep) if keep else z3.BoolVal(False)
+                g = (keep[0] if len(keep) == 1 else z3.Or(*keep)) if keep else z3.BoolVal(False)
             goal = g
+            if z3.is_eq(goal) and goal.arg(0).sort() in (z3.RealSort(), z3.IntSort()):
+                from . import sumnf
+
+                t1 = time.time()
+                okk = sumnf.prove_equal(s, goal.arg(0), goal.arg(1))
+                if ctxobj is not None:
+                    ctxobj.solver_s += time.time() - t1
+                if okk:
+                    s.pop()
+                    return {"status": "discharged", "by": "z3+sumnf"}
+            sum_single_support_lemmas(s, goal)
             sum_congruence_lemmas(s, goal)
     except z3.Z3Exception:
         pass
